@@ -1039,7 +1039,14 @@ class PureScheduler:                                    # pylint: disable=r0902
 
             # exceptions need to be cleaned up
             # clear the exception(s) in done
-            await self._tidy_tasks_exception(done)
+            try:
+                await self._tidy_tasks_exception(done)
+            except asyncio.CancelledError:
+                # same as above: if we get cancelled right here (gather() may
+                # yield to the event loop, it does up to python-3.11),
+                # do not leave our own jobs running
+                await self._tidy_tasks(pending)
+                raise
             # do we have at least one critical job with an exception ?
             critical_failure = False
             for done_task in done:
